@@ -10,6 +10,7 @@ import numpy as np
 from .. import sanit, monitor
 from ..common import rng_for, close
 
+OPTIMIZED_SHARDS = 1  # shards run once more in an interpreter started with -O (vf/run.py)
 LEVEL = "exploration"
 TECHNIQUE = "runtime monitors on Deltas.apply / Stack.apply with explicit-loop reference models (Kaldi delta recursion, stacking loops) and a read-only/digest write sanitizer"
 RULE = (
